@@ -8,9 +8,15 @@ import (
 	"crypto/elliptic"
 	"crypto/rand"
 	"crypto/rsa"
+	"crypto/sha256"
+	"crypto/sha512"
+	"crypto/x509"
+	"crypto/x509/pkix"
+	"encoding/hex"
 	"fmt"
 	"math/big"
 	"strings"
+	"time"
 
 	"github.com/veraison/psatoken"
 
@@ -170,7 +176,7 @@ func c02Malformed(c *mon.Ctx, A *signedTok, name string, pk crypto.PublicKey) {
 }
 
 func runC02(c *mon.Ctx) {
-	c.Rule("for each of ES256/384/512, EdDSA, PS256/384/512 with fresh keys x valid claims-sets of both profiles and a P2 extension, the token produced by the real ValidateAndSign is (1) accepted unmodified under the signer's key (positive control), then attacked - each mutant once through a fresh DecodeEvidenceFromCOSE and once through ONE REUSED Evidence object that has just decoded and verified the original token - with: every single-bit flip; every truncation; 1-8 trailing bytes; splices of protected/payload/signature between two tokens (same key/other payload, other key, other algorithm); signature := random bytes (same / other length), zeros, empty, signature of another message; 2-8 random byte substitutions, random insertions and deletions; algorithm moved to the unprotected header with a signature that is valid for that layout; empty protected header; protected header without label 1; nil payload with a signature valid over the empty payload; signature := well-formed DER ECDSA signatures (of nothing, of random integers, of another message); signature := the same integers in another octet form (a token is signed until r, s or the RSA integer starts with a zero octet, which is then dropped; zero octets prepended / appended); signature := the same octets rearranged (whole / each half reversed, halves swapped, complemented, bit-reversed, rotated, one half doubled); the payload re-serialised into other bytes of the same meaning (tags in front, non-minimal / indefinite map head, other key order, extra unknown key, bstr-wrapped) with the original protected header and signature; the protected header re-serialised into other bytes of the same meaning (non-minimal label / value / map head, indefinite map, extra label, tag) with the original payload and signature; and verification under every other key (same algorithm, other curve/type, nil, non-key values) and under malformed key objects of the right Go type (empty / short / long Ed25519 key, zero-value and nil ECDSA / RSA keys; a panic below the library is counted, a nil error is a violation). Oracle: decode+Verify may only succeed if the independent reader finds payload, protected-header content and signature byte-identical to the signed token and the key is the signer's (NO-VERDICT, counted), or if the independent stdlib verifier itself finds the signature valid for that content and key; Verify must never succeed without protected alg / payload / signature. distinct_nontrivial = distinct (algorithm, profile, mutation class, position bucket) signatures")
+	c.Rule("for each of ES256/384/512, EdDSA, PS256/384/512 with fresh keys x valid claims-sets of both profiles and a P2 extension, the token produced by the real ValidateAndSign is (1) accepted unmodified under the signer's key (positive control), then attacked - each mutant once through a fresh DecodeEvidenceFromCOSE and once through ONE REUSED Evidence object that has just decoded and verified the original token - with: every single-bit flip; every truncation; 1-8 trailing bytes; splices of protected/payload/signature between two tokens (same key/other payload, other key, other algorithm); signature := random bytes (same / other length), zeros, empty, signature of another message; 2-8 random byte substitutions, random insertions and deletions; algorithm moved to the unprotected header with a signature that is valid for that layout; empty protected header; protected header without label 1; nil payload with a signature valid over the empty payload; signature := well-formed DER ECDSA signatures (of nothing, of random integers, of another message); signature := the same integers in another octet form (a token is signed until r, s or the RSA integer starts with a zero octet, which is then dropped; zero octets prepended / appended); signature := the same octets rearranged (whole / each half reversed, halves swapped, complemented, bit-reversed, rotated, one half doubled); tokens re-signed by another key that bring their own 'proof' along in the unprotected header (self-issued certificate as x5chain / x5bag, key id) or carry a keyless hash-as-signature with the well-known TF-M short-circuit key id, verified under the signer's key, nil and an empty key list; the payload re-serialised into other bytes of the same meaning (tags in front, non-minimal / indefinite map head, other key order, extra unknown key, bstr-wrapped) with the original protected header and signature; the protected header re-serialised into other bytes of the same meaning (non-minimal label / value / map head, indefinite map, extra label, tag) with the original payload and signature; and verification under every other key (same algorithm, other curve/type, nil, non-key values) and under malformed key objects of the right Go type (empty / short / long Ed25519 key, zero-value and nil ECDSA / RSA keys; a panic below the library is counted, a nil error is a violation). Oracle: decode+Verify may only succeed if the independent reader finds payload, protected-header content and signature byte-identical to the signed token and the key is the signer's (NO-VERDICT, counted), or if the independent stdlib verifier itself finds the signature valid for that content and key; Verify must never succeed without protected alg / payload / signature. distinct_nontrivial = distinct (algorithm, profile, mutation class, position bucket) signatures")
 	if err := extprof.Register(extprof.ExtP2Name); err != nil {
 		c.Violation("harness/register", err.Error(), nil)
 		return
@@ -410,6 +416,61 @@ func runC02(c *mon.Ctx) {
 			}
 			c.Sig(base + "|signature-rearranged")
 		}
+		// (5f) tokens re-signed by SOMEBODY ELSE that carry their own "proof" in the
+		// unprotected header - a self-issued certificate (x5chain), a key id - and
+		// keyless test signatures (hash of the to-be-signed bytes repeated, with the
+		// well-known TF-M short-circuit key id): the verifier's key argument decides,
+		// nothing the token brings along
+		{
+			sigLen := len(A.env.Signature)
+			tbs := refcose.SigStructure(A.env.ProtectedBS, B.env.Payload)
+			var h []byte
+			switch alg {
+			case "ES256", "PS256":
+				d := sha256.Sum256(tbs)
+				h = d[:]
+			case "ES384", "PS384":
+				d := sha512.Sum384(tbs)
+				h = d[:]
+			default:
+				d := sha512.Sum512(tbs)
+				h = d[:]
+			}
+			short := bytes.Repeat(h, sigLen/len(h)+1)[:sigLen]
+			tfmKid, _ := hex.DecodeString("ef954b4bd9bdf670d0336082f5ef152af8f35b6a6c00efa6a9a71f49517e18c6")
+			cert := selfSignedCert(k2)
+			type inband struct {
+				name string
+				tok  []byte
+			}
+			var toks []inband
+			kidHdr := func(kid []byte) *refcbor.Node { return refcbor.MapOf(refcbor.I(4), refcbor.Bstr(kid)) }
+			toks = append(toks,
+				inband{"keyless-hash-signature+tfm-kid", sign1Bytes(A.env.ProtectedBS, kidHdr(tfmKid), B.env.Payload, short)},
+				inband{"keyless-hash-signature", sign1Bytes(A.env.ProtectedBS, nil, B.env.Payload, short)},
+				inband{"keyless-hash-signature+tfm-kid-protected", func() []byte {
+					prot := refcbor.Encode(refcbor.MapOf(refcbor.I(1), refcbor.I(coseAlgID[alg]), refcbor.I(4), refcbor.Bstr(tfmKid)))
+					t2 := refcose.SigStructure(prot, B.env.Payload)
+					d := sha256.Sum256(t2)
+					return sign1Bytes(prot, nil, B.env.Payload, bytes.Repeat(d[:], sigLen/32+1)[:sigLen])
+				}()},
+				inband{"resigned-by-other-key+kid", sign1Bytes(C.env.ProtectedBS, kidHdr(g.Bytes(32)), C.env.Payload, C.env.Signature)},
+			)
+			if cert != nil {
+				toks = append(toks,
+					inband{"resigned-by-other-key+x5chain", sign1Bytes(C.env.ProtectedBS, refcbor.MapOf(refcbor.I(33), refcbor.Bstr(cert)), C.env.Payload, C.env.Signature)},
+					inband{"resigned-by-other-key+x5chain-array", sign1Bytes(C.env.ProtectedBS, refcbor.MapOf(refcbor.I(33), refcbor.Arr(refcbor.Bstr(cert))), C.env.Payload, C.env.Signature)},
+					inband{"resigned-by-other-key+x5bag+x5t", sign1Bytes(C.env.ProtectedBS, refcbor.MapOf(refcbor.I(32), refcbor.Bstr(cert), refcbor.I(34), refcbor.Arr(refcbor.I(-16), refcbor.Bstr(g.Bytes(32)))), C.env.Payload, C.env.Signature)},
+				)
+				c.Count("in-band-certificates-built")
+			}
+			for _, t := range toks {
+				for ki, pk := range []crypto.PublicKey{k.Pub, nil, []crypto.PublicKey{}} {
+					c02Judge(c, "in-band-proof:"+t.name+":"+[]string{"signers-key", "nil-key", "empty-key-list"}[ki], A, t.tok, pk, ki == 0, nil)
+				}
+			}
+			c.Sig(base + "|in-band-proof")
+		}
 		// (5c) the PAYLOAD re-serialised into other bytes (tags in front, non-minimal
 		// map head, indefinite map, other key order, an extra unknown key), original
 		// protected header and signature: the signature covers the original bytes
@@ -562,7 +623,19 @@ func runC02(c *mon.Ctx) {
 	c.Floor("tokens-fully-bitflipped", 7)
 	c.Floor("mutants:bitflip", 10000)
 	c.Floor("mutants:splice", 1000)
+	c.Floor("in-band-certificates-built", 5)
 	c.Floor("outcome:verify-rejected", 5000)
 	c.Floor("outcome:decode-rejected", 1000)
 	c.Floor("reused-evidence-mutants", 10000)
+}
+
+// selfSignedCert returns a DER certificate the key pair issues to itself
+// (nil if the standard library cannot build one for this key type).
+func selfSignedCert(k keys.Pair) []byte {
+	tmpl := &x509.Certificate{SerialNumber: big.NewInt(1), Subject: pkix.Name{CommonName: "attester"}, NotBefore: time.Unix(0, 0), NotAfter: time.Unix(4102444800, 0), KeyUsage: x509.KeyUsageDigitalSignature}
+	der, err := x509.CreateCertificate(rand.Reader, tmpl, tmpl, k.Pub, k.Priv)
+	if err != nil {
+		return nil
+	}
+	return der
 }
